@@ -259,9 +259,9 @@ func resolveKey(m map[string][]int, key string) ([]int, bool) {
 
 func (t *tgen) keyTok(name string) string {
 	if t.rint(100) < 15 {
-		return "K" + codes([]byte(name))
+		return "K" + togoCodes([]byte(name))
 	}
-	return "k" + codes([]byte(name))
+	return "k" + togoCodes([]byte(name))
 }
 
 func (t *tgen) termOf(v reflect.Value) *tnode {
@@ -286,7 +286,7 @@ func (t *tgen) termOf(v reflect.Value) *tnode {
 		}
 		return atom("f" + strconv.FormatUint(math.Float64bits(f), 16))
 	case reflect.String:
-		return atom("s" + codes([]byte(v.String())))
+		return atom("s" + togoCodes([]byte(v.String())))
 	case reflect.Bool:
 		if v.Bool() {
 			return atom("b1")
@@ -297,7 +297,7 @@ func (t *tgen) termOf(v reflect.Value) *tnode {
 			return atom("n")
 		}
 		if ty.Elem().Kind() == reflect.Uint8 {
-			return atom("r" + codes(v.Bytes()))
+			return atom("r" + togoCodes(v.Bytes()))
 		}
 		n := &tnode{tok: "A"}
 		for i := 0; i < v.Len(); i++ {
@@ -512,7 +512,7 @@ func togoGen(g *Gen) {
 					g.Count("grid skipped script-only-record-into-interface{}")
 					continue
 				}
-				n := &tnode{tok: "H", tn: r.name, id: 1, keys: []string{"k" + codes([]byte(k))}, kids: []*tnode{rawTerm(s)}}
+				n := &tnode{tok: "H", tn: r.name, id: 1, keys: []string{"k" + togoCodes([]byte(k))}, kids: []*tnode{rawTerm(s)}}
 				g.Emit("%s", togoLine("conv", r, n, "-"))
 				g.Count("grid " + tyExpr(ft) + " <- " + s[:1])
 			}
@@ -538,7 +538,7 @@ func togoGen(g *Gen) {
 					if key == "" {
 						key = f.Name
 					}
-					g.Emit("%s", togoLine("echo", r, &tnode{tok: "H", tn: o.name, id: 1, keys: []string{"k" + codes([]byte(key))}, kids: []*tnode{atom("s97")}}, "-"))
+					g.Emit("%s", togoLine("echo", r, &tnode{tok: "H", tn: o.name, id: 1, keys: []string{"k" + togoCodes([]byte(key))}, kids: []*tnode{atom("s97")}}, "-"))
 					break
 				}
 			}
@@ -620,7 +620,7 @@ func togoGen(g *Gen) {
 			}
 			switch kind {
 			case 0:
-				victim.keys = append(victim.keys, "k"+codes([]byte([]string{"zz", "nosuch", "ID", "Cry2", "x"}[g.Rng.Intn(5)])))
+				victim.keys = append(victim.keys, "k"+togoCodes([]byte([]string{"zz", "nosuch", "ID", "Cry2", "x"}[g.Rng.Intn(5)])))
 				victim.kids = append(victim.kids, atom("i1"))
 				g.Count("bad unknown-field")
 			case 1:
